@@ -342,9 +342,11 @@ theorem processLine_inv {cfg : Cfg} {p p' : Parser} {raw raw' : Bytes} {more' : 
     · split at h
       · split at h
         · simp at h
-        · simp only [Except.ok.injEq, Prod.mk.injEq] at h
-          obtain ⟨rfl, rfl, rfl⟩ := h
-          refine ⟨?_, ?_, ?_, Or.inr (by omega)⟩ <;> (unfold setLineAttributes; split <;> rfl)
+        · split at h
+          · simp at h
+          · simp only [Except.ok.injEq, Prod.mk.injEq] at h
+            obtain ⟨rfl, rfl, rfl⟩ := h
+            refine ⟨?_, ?_, ?_, Or.inr (by omega)⟩ <;> (unfold setLineAttributes; split <;> rfl)
       · simp at h
     · split at h
       · simp only [Except.ok.injEq, Prod.mk.injEq] at h
